@@ -385,3 +385,11 @@ package aml
 //@   ensures clean: err == nil ==> !passFailed && p.resolvePasses >= 1
 //@   ensures order: err == nil ==> passes == old(passes) + 2 + 2*uintptr(p.resolvePasses) + 3 && passLog[old(passes)] == 1 && passLog[old(passes)+1] == 2 && forall(j, uintptr, j < uintptr(p.resolvePasses) ==> passLog[old(passes) + 2 + 2*j] == 3 && passLog[old(passes) + 3 + 2*j] == 4) && passLog[passes - 3] == 5 && passLog[passes - 2] == 6 && passLog[passes - 1] == 7
 //@   loop 1 invariant p.resolvePasses >= 1 && p.resolvePasses < 0x7fffffff && !passFailed && passAfterFail == old(passAfterFail) && passes == old(passes) + 2 + 2*uintptr(p.resolvePasses - 1) && passLog[old(passes)] == 1 && passLog[old(passes)+1] == 2 && forall(j, uintptr, j < uintptr(p.resolvePasses - 1) ==> passLog[old(passes) + 2 + 2*j] == 3 && passLog[old(passes) + 3 + 2*j] == 4)
+
+// ---- child access (C13) -------------------------------------------------------------------------
+// ArgAt: the index-th child, or nil; never a dead object
+//@ func (tree *ObjectTree) ArgAt(obj *Object, index uint32) (r *Object)
+//@   property C13
+//@   requires wfTree(tree) && (obj != nil ==> member(tree, obj))
+//@   ensures r == nil || member(tree, r)
+//@   loop 1 (siblingIndex != InvalidIndex) invariant siblingIndex == InvalidIndex || live(tree, siblingIndex)
